@@ -192,3 +192,69 @@ def enclosing_stmt_chain(func_node: ast.AST, target: ast.AST) -> list[ast.AST]:
 
     rec(func_node)
     return list(reversed(chain))
+
+
+class Implication:
+    """Does `expr evaluating to val` imply that the atomic predicate has truth value `want`?
+
+    atom(node) -> True when node *is* the atomic predicate (e.g. `value in config.allowed_numbers`).
+    Calls to methods of `cls_qual` (self.x(...)) and to functions of the same module are summarised
+    over their CFG paths: every path on which the result can equal `val` must establish the atom."""
+
+    def __init__(self, repo, cls_qual, atom, depth: int = 3):
+        self.repo = repo
+        self.cls_qual = cls_qual
+        self.atom = atom
+        self.depth = depth
+
+    def _callee(self, f_module, e: ast.Call):
+        if isinstance(e.func, ast.Attribute) and isinstance(e.func.value, ast.Name) and e.func.value.id == "self" and self.cls_qual:
+            return self.repo.find_method(self.cls_qual, e.func.attr)
+        if isinstance(e.func, ast.Name) and f_module is not None:
+            q = self.repo.resolve(f_module, e.func.id)
+            return self.repo.funcs.get(q) if q else None
+        return None
+
+    def implies(self, e: ast.AST, val: bool, want: bool, module=None, depth: int | None = None) -> bool:
+        depth = self.depth if depth is None else depth
+        if self.atom(e):
+            return val == want
+        if isinstance(e, ast.UnaryOp) and isinstance(e.op, ast.Not):
+            return self.implies(e.operand, not val, want, module, depth)
+        if isinstance(e, ast.BoolOp):
+            if isinstance(e.op, ast.And) and val:
+                return any(self.implies(v, True, want, module, depth) for v in e.values)
+            if isinstance(e.op, ast.Or) and not val:
+                return any(self.implies(v, False, want, module, depth) for v in e.values)
+            return False
+        if isinstance(e, ast.Call) and depth > 0:
+            g = self._callee(module, e)
+            if g is None:
+                return False
+            gp = func_paths(g, 800)
+            if gp is None:
+                return False
+            relevant = False
+            for p in gp:
+                t = p[-1]
+                if t[0] != "return" or t[1].value is None:
+                    if t[0] == "end" and val is False:
+                        # falls off the end: returns None (falsy)
+                        relevant = True
+                        if not self.established(p, len(p), want, g.module, depth - 1):
+                            return False
+                    continue
+                rv = t[1].value
+                if isinstance(rv, ast.Constant) and bool(rv.value) != val:
+                    continue
+                relevant = True
+                if self.established(p, len(p) - 1, want, g.module, depth - 1):
+                    continue
+                if not self.implies(rv, val, want, g.module, depth - 1):
+                    return False
+            return relevant
+        return False
+
+    def established(self, path, idx: int, want: bool, module=None, depth: int | None = None) -> bool:
+        depth = self.depth if depth is None else depth
+        return any(ev[0] == "test" and self.implies(ev[1], ev[2], want, module, depth) for ev in path[:idx])
